@@ -76,3 +76,125 @@ Print Assumptions C15_c_wrappers_null_old_refuted.
 Theorem C15_run_meets_spec : forall s, valid s = true -> spec s (run s) = true.
 Proof. exact run_meets_spec. Qed.
 Print Assumptions C15_run_meets_spec.
+
+(* --------------------------------------------------------------------------------------------------------------
+   The pending-failure list of the model IS the source: LocationToFailAllocNode and the list-walking member functions of FailableMemoryAllocator as tools/cxx2heap.py regenerates them from TestMemoryAllocator.cpp on every run (gen/Gen_HeapC15.v; objects are blocks of cells, C15_HeapRep.v: node_cells / chain / fail_at; a source file name is an opaque integer fc f, fc injective and never 0; the allocations let through and the nodes obtained / released are ghost events), run on a heap that represents a model state, return what the model's should_fail / mstep return and leave a heap that represents the model's new state. The two int counters wrap at 32 bits in the source and not in the model: excluded by no_wrap and s_cur + 1 < 2^31 (ex_wrap_node, ex_wrap_cur in C15_HeapTie.v show the difference)
+   -------------------------------------------------------------------------------------------------------------- *)
+From CppUVerif Require Import lib.CSem lib.CMem lib.CHeap gen.Gen_HeapC15 C15_HeapRep C15_HeapTie.
+Local Open Scope Z_scope.
+Theorem C15_node_layout_is_the_source :
+  off_LocationToFailAllocNode_allocNumberToFail_ = 0 /\
+  off_LocationToFailAllocNode_actualAllocNumber_ = 1 /\
+  off_LocationToFailAllocNode_file_ = 2 /\
+  off_LocationToFailAllocNode_line_ = 3 /\
+  off_LocationToFailAllocNode_next_ = 4 /\
+  cells_LocationToFailAllocNode = 5 /\
+  off_FailableMemoryAllocator_head_ = 0 /\
+  off_FailableMemoryAllocator_currentAllocNumber_ = 1 /\ cells_FailableMemoryAllocator = 2.
+Proof. exact node_layout_is_the_source. Qed.
+Print Assumptions C15_node_layout_is_the_source.
+
+Theorem C15_src_fnode_shouldFail_spec :
+  forall fc : list N -> Z,
+  (forall a b : list N, fc a = fc b -> a = b) ->
+  (forall a : list N, fc a <> 0) ->
+  forall (fuel : nat) (h : heap) (evs : list hev) (nx : Z) (b : nat) (nd : node) (nxt : hptr) (g : Z) (l : loc),
+  hblock h b = node_cells fc nd nxt ->
+  (b < length h)%nat ->
+  node_ok nd ->
+  no_wrap l nd ->
+  exists h' : heap,
+  src_fnode_shouldFail fuel h evs nx (HPtr b 0) g (fc (fst l)) (Z.of_N (snd l)) =
+  FOk (b2z (snd (should_fail g l nd)), h', evs, nx) /\
+  hblock h' b = node_cells fc (fst (should_fail g l nd)) nxt /\
+  node_ok (fst (should_fail g l nd)) /\
+  length h' = length h /\ (forall b' : nat, b' <> b -> hblock h' b' = hblock h b').
+Proof. exact src_fnode_shouldFail_spec. Qed.
+Print Assumptions C15_src_fnode_shouldFail_spec.
+
+Theorem C15_src_fail_failAllocNumber_spec :
+  forall (fc : list N -> Z) (fuel : nat) (h : heap) (evs : list hev) (nx : Z) (bt : nat)
+  (bs : list nat) (s : st) (n : Z),
+  fail_at fc h bt bs s ->
+  int_ok n ->
+  exists h' : heap,
+  src_fail_failAllocNumber fuel h evs nx (HPtr bt 0) n =
+  FOk (tt, h', evs ++ [HAllocRec nx (HPtr (length h) 0) sizeof_LocationToFailAllocNode], nx + 1) /\
+  fail_at fc h' bt (length h :: bs) (fst (mstep s (FailG n))) /\
+  length h' = S (length h) /\ (forall b' : nat, b' <> bt -> (b' < length h)%nat -> hblock h' b' = hblock h b').
+Proof. exact src_fail_failAllocNumber_spec. Qed.
+Print Assumptions C15_src_fail_failAllocNumber_spec.
+
+Theorem C15_src_fail_failNthAllocAt_spec :
+  forall (fc : list N -> Z) (fuel : nat) (h : heap) (evs : list hev) (nx : Z) (bt : nat)
+  (bs : list nat) (s : st) (n : Z) (l : list N * N),
+  fail_at fc h bt bs s ->
+  int_ok n ->
+  (snd l < 2 ^ 64)%N ->
+  exists h' : heap,
+  src_fail_failNthAllocAt fuel h evs nx (HPtr bt 0) n (fc (fst l)) (Z.of_N (snd l)) =
+  FOk (tt, h', evs ++ [HAllocRec nx (HPtr (length h) 0) sizeof_LocationToFailAllocNode], nx + 1) /\
+  fail_at fc h' bt (length h :: bs) (fst (mstep s (FailAt n l))) /\
+  length h' = S (length h) /\ (forall b' : nat, b' <> bt -> (b' < length h)%nat -> hblock h' b' = hblock h b').
+Proof. exact src_fail_failNthAllocAt_spec. Qed.
+Print Assumptions C15_src_fail_failNthAllocAt_spec.
+
+Theorem C15_src_fail_alloc_memory_spec :
+  forall fc : list N -> Z,
+  (forall a b : list N, fc a = fc b -> a = b) ->
+  (forall a : list N, fc a <> 0) ->
+  forall (fuel : nat) (h : heap) (evs : list hev) (nx : Z) (bt : nat) (bs : list nat)
+  (s : st) (size : Z) (l : loc),
+  fail_at fc h bt bs s ->
+  s_cur s + 1 < 2 ^ 31 ->
+  Forall (no_wrap l) (s_nodes s) ->
+  (length (s_nodes s) < fuel)%nat ->
+  let g := s_cur s + 1 in
+  let ns' := fst (walk g l false (s_nodes s)) in
+  let failed := snd (walk g l false (s_nodes s)) in
+  exists h' : heap,
+  src_fail_alloc_memory fuel h evs nx (HPtr bt 0) size (fc (fst l)) (Z.of_N (snd l)) =
+  FOk
+  (if failed then 0 else nx, h',
+  evs ++ [if failed then HFreeRec (t_ptr g l bs (s_nodes s)) size else HAllocBuf nx size],
+  if failed then nx else nx + 1) /\
+  fail_at fc h' bt (t_brem g l bs (s_nodes s)) {| s_nodes := ns'; s_cur := g |} /\
+  length h' = length h /\
+  (forall b' : nat, b' <> bt -> ~ In b' bs -> hblock h' b' = hblock h b') /\
+  (failed = true <-> t_ptr g l bs (s_nodes s) <> HNull).
+Proof. exact src_fail_alloc_memory_spec. Qed.
+Print Assumptions C15_src_fail_alloc_memory_spec.
+
+Theorem C15_src_fail_alloc_memory_mstep :
+  forall fc : list N -> Z,
+  (forall a b : list N, fc a = fc b -> a = b) ->
+  (forall a : list N, fc a <> 0) ->
+  forall (fuel : nat) (h : heap) (evs : list hev) (nx : Z) (bt : nat) (bs : list nat)
+  (s : st) (size : Z) (f : family) (l : loc),
+  fail_at fc h bt bs s ->
+  s_cur s + 1 < 2 ^ 31 ->
+  Forall (no_wrap l) (s_nodes s) ->
+  (length (s_nodes s) < fuel)%nat ->
+  0 < nx ->
+  exists (r : Z) (h' : heap) (evs' : list hev) (nx' : Z) (bs' : list nat),
+  src_fail_alloc_memory fuel h evs nx (HPtr bt 0) size (fc (fst l)) (Z.of_N (snd l)) = FOk (r, h', evs', nx') /\
+  fail_at fc h' bt bs' (fst (mstep s (Alloc f l))) /\
+  snd (mstep s (Alloc f l)) = Some (OAlloc (deliver f (r =? 0))) /\
+  length h' = length h /\
+  (forall b' : nat, b' <> bt -> ~ In b' bs -> hblock h' b' = hblock h b') /\
+  (forall x : nat, In x bs' -> In x bs).
+Proof. exact src_fail_alloc_memory_mstep. Qed.
+Print Assumptions C15_src_fail_alloc_memory_mstep.
+
+Theorem C15_src_fail_clearFailedAllocs_spec :
+  forall (fc : list N -> Z) (fuel : nat) (h : heap) (evs : list hev) (nx : Z) (bt : nat)
+  (bs : list nat) (s : st),
+  fail_at fc h bt bs s ->
+  (length (s_nodes s) < fuel)%nat ->
+  exists h' : heap,
+  src_fail_clearFailedAllocs fuel h evs nx (HPtr bt 0) =
+  FOk (tt, h', evs ++ map (fun b : nat => HFreeRec (HPtr b 0) 0) bs, nx) /\
+  fail_at fc h' bt [] (fst (mstep s Clear)) /\
+  length h' = length h /\ (forall b' : nat, b' <> bt -> hblock h' b' = hblock h b').
+Proof. exact src_fail_clearFailedAllocs_spec. Qed.
+Print Assumptions C15_src_fail_clearFailedAllocs_spec.
